@@ -137,13 +137,29 @@ def main():
         _sr.replay(ck, "C14", ck.args.replay)
     cfgs = [dict(clustering="TRUE", every=2, metric="ess", cap=0), dict(clustering="TRUE", every=3, metric="ess", cap=2)]
     cov = sysrun.model_part(ck, "C14", variants=["rankmodes", "unfitted"], tier=ck.tier, configs=cfgs)
-    limit = 40 if ck.tier == "quick" else 256
+    limit = 30 if ck.tier == "quick" else 256
     jobs = sysrun.product_jobs(FACTORS, {"n_particles": 16, "clustering": True}, ck.seed + 14, limit=limit, n_total=48)
     sc, traces = sysrun.system_part(ck, "C14", jobs, nontrivial)
     cov.update(sc)
     cov.update(sysrun.selftest(traces[0]))
     sp = scripted_part(ck)
     cov.update(sp)
+    # "... and after resuming from a checkpoint": runs with save_every, every (<= 4) checkpoint resumed in a fresh sampler
+    # (whose clusterer is unfitted), whole resumed traces validated
+    from vlib import procs, psrun
+
+    rj = [dict(conf=c, seed=145 + i + 100 * ck.seed, label=f"c14resume#{i}", n_total=40, save_every=1, max_ckpt=5, vary_n_total=False)
+          for i, c in enumerate([dict(clustering=True, cluster_every=3, target="bimodal", n_particles=16), dict(clustering=True, cluster_every=2, normalize=False, n_particles=16),
+                                 dict(clustering=True, cluster_every=5, n_max_clusters=2, target="narrow", n_particles=16, sample="rwm")])]
+    rres = procs.run(sysrun.resume_job, rj, procs=len(rj), timeout=600)
+    rtraces = []
+    for st_, r_ in rres:
+        if st_ != "ok":
+            raise RuntimeError("resume worker failed: " + str(r_)[:300])
+        rtraces += r_
+    rfails, rst = psrun.validate(rtraces)
+    sysrun.attribute(ck, "C14", rtraces, rfails)
+    cov["resumed_runs_validated"] = sum(1 for t in rtraces if t["meta"].get("resumed"))
     cov.update({
         "traces_validated_against_impl": sc["system_runs"] + sp["scripted_scenarios"],
         "evaluations": sc["system_events_validated"] + sp["scripted_states"],
